@@ -442,7 +442,7 @@ def run(run):
                 "non-trivial whenever the library ACCEPTS the corrupted input (then the frozen validator judges the output); every timestamp slot also fed with datetime / STIXdatetime objects of every precision setting, every reference slot with library objects of both versions / relaxed mode" % ("; x one extra valid optional property on minimal bases" if th else ""))
     run.bound = {"simultaneous_corruptions": 1, "bases": len(cases), "entry_forms": 3}
     run.assumptions += ["frozen spec model and validator mc/spec (MUST-level rules only; sanity-checked on the repository's example content)", "stix2patterns validates indicator patterns"]
-    run.pmap(run_case, cases)
+    run.pmap(run_case, cases, order_independent=True)
     run.part.sample({"version": "2.1", "key": "observables:network-traffic", "label": "max", "slot": ["src_port"], "corruption": "above-max", "value": 65536, "expected": "refused"})
     run.part.sample({"version": "2.0", "key": "objects:sighting", "label": "min", "slot": ["observed_data_refs", 0], "corruption": "uuid-v1", "expected": "refused (2.0 ids are UUIDv4)"})
     run.part.sample({"version": "2.1", "key": "objects:location", "label": "min", "corruption": "constraint:latitude-without-longitude", "expected": "refused"})
